@@ -381,5 +381,10 @@ Proof.
            eexists; split; [apply upd_same | norm_finish; cbn_st; try reflexivity; try (destruct hit; reflexivity)]
          | eexists; split; [rewrite upd_other by assumption; eassumption | assumption] ]
        end; fail).
+  4: { destruct (B2 _ Hx) as (thx & Hx1 & Hx2).
+       match goal with
+       | |- exists _, upd _ ?u _ _ = _ /\ _ =>
+         destruct (Nat.eq_dec x u) as [E|Hne] end.
+       - subst. rewrite Hth in Hx1. inversion Hx1. subst. rewrite ?Hpc in Hx2. cbn in Hx2. Show.
   Show.
 Admitted.
